@@ -1335,7 +1335,10 @@ def dissolve_multi_part_traces(
 
     as_linestrings_list = [mls_to_ls([geom]) for geom in mls_traces.geometry.values]
     if isinstance(traces, gpd.GeoSeries):
-        return gpd.GeoSeries(list(chain(*as_linestrings_list)), crs=traces.crs)
+        return gpd.GeoSeries(
+            list(ls_traces.geometry.values) + list(chain(*as_linestrings_list)),
+            crs=traces.crs,
+        )
 
     for (_, row), as_linestrings in zip(mls_traces.iterrows(), as_linestrings_list):
         # as_linestrings = mls_to_ls([row.geometry])
